@@ -22,6 +22,7 @@ def check(run):
     from . import gentest_script
     run.attempt(gentest_script.run_rule, run, p, 'C11')
     run.attempt(template, run, p, 'C11')
+    run.attempt(flagkw, run, p)
     run.attempt(effects, run, p)
     run.attempt(mustemit, run, p, 'C11-MUSTEMIT')
     run.attempt(joinrepr, run, p)
@@ -49,6 +50,39 @@ def backed(run, rid, key, ok, msg, backing, **kw):
         run.ob(rid, key, ok, msg, **kw)
     else:
         run.note(rid, 'shape not recognised, decided by %s alone: %s' % (backing, msg[:160]), fn=kw.get('fn'), node=kw.get('node'))
+
+
+def flagkw(run, p):
+    """every option of `tdda gentest` reaches gentest() under a parameter name it has"""
+    import argparse
+    from ..pyeval import Raised
+    run.rule('C11-FLAGKW', 'every command-line option of tdda gentest can be used: gentest_params, evaluated with the real argparse on '
+                           'each option and on all of them together, hands gentest() only keyword arguments it accepts, with the value '
+                           'given (an option passed on under a name gentest() does not have is a TypeError before anything runs)')
+    f = p.fn(GT + 'gentest_params')
+    g = p.fn(GT + 'gentest')
+    accepted = set(g.params)
+    cases = [(['-m', '7'], 7), (['--max-files', '7'], 7), (['-r'], True), (['-n', '3'], 3), (['-n', '1'], 1), (['-O'], True), (['-E'], True),
+             (['-Z'], True), (['-C'], True), ([], None), (['-m', '7', '-r', '-n', '3', '-O', '-E', '-Z', '-C'], None)]
+    n = 0
+    for opts, val in cases:
+        I = Interp(p)
+        I.safe_modules = {'argparse'}
+        I.extra_names['argparse'] = argparse
+        args = list(opts) + ['echo hi', 'test_x.py', 'out.txt']
+        try:
+            pos, kw = I.call(f, [args])
+        except (Unsupported, Raised) as e:
+            raise AnalysisError('gentest_params is not evaluable: %s' % e)
+        n += 1
+        extra = sorted(set(kw) - accepted)
+        ok = not extra and list(pos) == ['echo hi', 'test_x.py', 'out.txt']
+        if ok and val is not None:
+            ok = val in kw.values() and len(kw) == 1
+        run.ob('C11-FLAGKW', '%s::%s::%s' % (f.rel, f.short, ' '.join(opts) or 'no options'), ok,
+               'tdda gentest %s ...: gentest() is called with %s%s' % (' '.join(opts), kw, '' if not extra else
+                                                                      ' - it has no parameter %s (TypeError)' % ', '.join(extra)), fn=f)
+    run.floor('C11-FLAGKW', n, 11)
 
 
 # ---------------------------------------------------------------------------
